@@ -49,9 +49,9 @@ func (m *TN93Model) Distance(seq1 []uint8, seq2 []uint8, weights []float64) (flo
 	e3 := 1 - trV/(2*piy) - piy*p2/(2*pcpt)
 
 	if m.gamma {
-		b1 = (piy/pir*m.alpha*(1.-math.Pow(e1, -1./m.alpha)) - 1./pir*m.alpha*(1.-math.Pow(e2, -1./m.alpha)))
-		b2 = (pir/piy*m.alpha*(1.-math.Pow(e1, -1./m.alpha)) - 1./piy*m.alpha*(1.-math.Pow(e3, -1./m.alpha)))
-		b3 = -m.alpha * (1. - math.Pow(e1, -1./m.alpha))
+		b1 = (piy/pir*m.alpha*(1.-gammaPow(e1, -1./m.alpha)) - 1./pir*m.alpha*(1.-gammaPow(e2, -1./m.alpha)))
+		b2 = (pir/piy*m.alpha*(1.-gammaPow(e1, -1./m.alpha)) - 1./piy*m.alpha*(1.-gammaPow(e3, -1./m.alpha)))
+		b3 = -m.alpha * (1. - gammaPow(e1, -1./m.alpha))
 	} else {
 		b1 = piy/pir*math.Log(e1) - 1./pir*math.Log(e2)
 		b2 = pir/piy*math.Log(e1) - 1./piy*math.Log(e3)
